@@ -8,14 +8,14 @@ CHECKS = {}
 def check(pid, text, note, technique, ref):
     CHECKS[pid] = dict(text=text, note=note, technique=technique, ref=ref)
 
-check("C20 Tomography constructors are enumerated over all schedules up to length 4 in both tiers.",
-      "TLC model-checks the schedule language (declarative rule == automaton, error classes, list rule, tomography shapes) and the Experiment setter machine (stored schedules always acceptable, rejected setters change nothing); the implementation is bound both ways: every word up to length 3 (4 thorough) over 26 concrete item tokens x list-size configurations is fed to Experiment and the four tomography constructors and each observed verdict is validated by TLC against QSchedule (Trace_C20), and every transition of the Experiment machine emitted by TLC is replayed on a real Experiment (edge cover + seeded walks) comparing verdict class and state after the call.",
+check("C20",
+      "TLC model-checks the schedule language (declarative rule == automaton, error classes, list rule, tomography shapes) and the Experiment setter machine (stored schedules always acceptable, rejected setters change nothing); the implementation is bound both ways: every word up to length 3 (4 thorough) over 26 concrete item tokens x list-size configurations is fed to Experiment and the four tomography constructors and each observed verdict is validated by TLC against QSchedule (Trace_C20), and every transition of the Experiment machine emitted by TLC is replayed on a real Experiment (edge cover + seeded walks) comparing verdict class and state after the call. Tomography constructors are enumerated over all schedules up to length 4 in both tiers.",
       "Trusted: QSchedule.tla as the reading of the property; the harness' classification of exceptions; numpy integer indices not generated.",
       "TLA+ spec (QSchedule/QExperiment) model-checked with TLC; TLC trace validation of recorded constructor verdicts; replay of TLC-emitted transition graph",
       "DESIGN.md §4 C20")
 
-check("C03 Operation sets hold up to three items of one type with different variable lengths.",
-      "TLC model-checks QIndex for every configuration (type x d x m x parametrisation flag): the variable layout is injective, covers exactly the cells not implied by the equality constraint, preserves the stacked order, the two index maps are mutually inverse, implied cells are affine in non-implied ones, and the total index of an operation set (states, gates, povms, mprocesses) is a bijection; every configuration's layout is printed by TLC and replayed: real State/Povm/Gate/MProcess objects and variable vectors carry distinct labels and to_var, to_stacked_vector, generate_from_var, convert_var_to_stacked_vector, convert_stacked_vector_to_var, all eight convert_*_index_* functions, calc_gradient, SetQOperations total-index functions and the tomography classes' num_variables must reproduce the layout exactly, for every index.",
+check("C03",
+      "TLC model-checks QIndex for every configuration (type x d x m x parametrisation flag): the variable layout is injective, covers exactly the cells not implied by the equality constraint, preserves the stacked order, the two index maps are mutually inverse, implied cells are affine in non-implied ones, and the total index of an operation set (states, gates, povms, mprocesses) is a bijection; every configuration's layout is printed by TLC and replayed: real State/Povm/Gate/MProcess objects and variable vectors carry distinct labels and to_var, to_stacked_vector, generate_from_var, convert_var_to_stacked_vector, convert_stacked_vector_to_var, all eight convert_*_index_* functions, calc_gradient, SetQOperations total-index functions and the tomography classes' num_variables must reproduce the layout exactly, for every index. Operation sets hold up to three items of one type with different variable lengths.",
       "Trusted: QIndex.tla layouts as the reading of the property; dimensions 2,3,4 (6 in thorough); labels are exactly representable floats so comparison is exact.",
       "TLA+ spec (QIndex) model-checked with TLC; replay of TLC-emitted layouts into the implementation (exhaustive per configuration)",
       "DESIGN.md §4 C03")
@@ -32,8 +32,8 @@ check("C14",
       "TLA+ spec (QRandom, QData) model-checked with TLC; replay of the TLC-emitted transition graph and of exact sampling cases into the implementation",
       "DESIGN.md §4 C14")
 
-check("C13 Option objects are re-used across the estimations of a world; an estimation mode changes only the algorithm option (constraint flags); the pure actions query both orderings of the computational basis on the shared system.",
-      "TLC model-checks QPool: cache tables with their build groups, global tolerance set/restore and one shared loss object / algorithm object re-configured per estimation; invariants: a re-used object equals a freshly configured one (NoResidue), cached extended weights belong to the weights held, pure operations / cache management / tolerance round trips change nothing else; a second instance configured the way the code originally ordered its configuration steps must violate NoResidue (vacuity witness). The transition graphs of the cache projection and of the estimation projection are replayed on one shared pool of real objects (all four types, physical and not, two systems): every call's result hash must equal the hash of the same call in a fresh world, every pool object / argument array / matrix basis / dataset must be byte-identical before and after every call, Delete must drop exactly one table, copies are written to and must not affect originals, matrix bases must refuse writes.",
+check("C13",
+      "TLC model-checks QPool: cache tables with their build groups, global tolerance set/restore and one shared loss object / algorithm object re-configured per estimation; invariants: a re-used object equals a freshly configured one (NoResidue), cached extended weights belong to the weights held, pure operations / cache management / tolerance round trips change nothing else; a second instance configured the way the code originally ordered its configuration steps must violate NoResidue (vacuity witness). The transition graphs of the cache projection and of the estimation projection are replayed on one shared pool of real objects (all four types, physical and not, two systems): every call's result hash must equal the hash of the same call in a fresh world, every pool object / argument array / matrix basis / dataset must be byte-identical before and after every call, Delete must drop exactly one table, copies are written to and must not affect originals, matrix bases must refuse writes. Option objects are re-used across the estimations of a world; an estimation mode changes only the algorithm option (constraint flags); the pure actions query both orderings of the computational basis on the shared system.",
       "Trusted: result hashes (values rounded to 1e-10), byte-exact operand snapshots; the spec keeps the cache state exact by dropping tables that pure operations build on the way.",
       "TLA+ spec (QPool) model-checked with TLC incl. as-coded vacuity witness; replay of TLC-emitted transition graphs (edge cover + seeded long walks) into the implementation against a fresh-world oracle",
       "DESIGN.md §4 C13")
@@ -44,8 +44,8 @@ check("C08",
       "TLA+ spec (QTomo over exact rationals) model-checked with TLC; replay of TLC-emitted configurations and exact (A, b) into the implementation",
       "DESIGN.md §4 C08")
 
-check("C09 One estimator object serves many short-lived tomography objects (results must not depend on tomographies seen before); unknowns with two and three outcomes; rank-deficient configurations are outside the property and only recorded.",
-      "TLC (MC_C09) computes per configuration the exact model, its rank over two prime fields and datasets with the estimate the specification expects: exact data of arbitrary variable vectors and of the physical catalogue, certificate data (exact data plus a null vector of A^T that TLC verifies), and for models up to 8 variables count-like / non-normalised data solved by exact rational Gauss-Jordan elimination; invariants: the expected estimate satisfies the normal equations exactly (residual orthogonal to the model), exact data are inverted, complete tester sets give full rank and deficient ones do not. Binding: LinearEstimator on the concretised testers must return those estimates (estimated_var, estimated_qoperation), sequence = single, independence of attached sample counts, refusal of rank-deficient sets, calc_mse_of_true_estimated = 0 on the catalogue.",
+check("C09",
+      "TLC (MC_C09) computes per configuration the exact model, its rank over two prime fields and datasets with the estimate the specification expects: exact data of arbitrary variable vectors and of the physical catalogue, certificate data (exact data plus a null vector of A^T that TLC verifies), and for models up to 8 variables count-like / non-normalised data solved by exact rational Gauss-Jordan elimination; invariants: the expected estimate satisfies the normal equations exactly (residual orthogonal to the model), exact data are inverted, complete tester sets give full rank and deficient ones do not. Binding: LinearEstimator on the concretised testers must return those estimates (estimated_var, estimated_qoperation), sequence = single, independence of attached sample counts, refusal of rank-deficient sets, calc_mse_of_true_estimated = 0 on the catalogue. One estimator object serves many short-lived tomography objects (results must not depend on tomographies seen before); unknowns with two and three outcomes; rank-deficient configurations are outside the property and only recorded.",
       "Trusted: QTomo model (bound to the library by C08), modular rank, tolerance 1e-8 relative on estimates.",
       "TLA+ spec (QTomo + exact rational least squares) model-checked with TLC; replay of TLC-emitted datasets and exact estimates into the implementation",
       "DESIGN.md §4 C09")
@@ -56,8 +56,8 @@ check("C12",
       "TLA+ spec (QLoss over exact rationals) model-checked with TLC; replay of TLC-emitted exact loss quantities into four loss implementations",
       "DESIGN.md §4 C12")
 
-check("C06 The POVM p5 (an element I/4 with a repeated eigenvalue) is in the exact Lueders catalogue of generate_mprocess.",
-      "TLC (MC_C06 over QAlgebra) builds every type-valid time-ordered chain up to length 4 (5 thorough) over an exact catalogue of states, gates, measurement processes with 2/3/4 outcomes and POVMs with 2/3/4 outcomes (non-commuting) and checks in every state that EVERY bracketing of the chain gives the value of the sequential application (associativity of the specification's binary Compose on channel-like / state-like / POVM-like / distribution segments), that results are normalised and non-negative, that the outcome shape lists the measuring items in time order, that a measurement process on a state has the statistics of its induced POVM, and that POVM -> measurement process (three back-action modes) induces the POVM back. Binding: every chain is rebuilt from the emitted H-coordinates as real physical objects and every bracketing is evaluated through nested compose_qoperations (plus the n-ary fold and Experiment.calc_prob_dist); results must equal the specification's value in the same serial order with a compatible shape, be physical, and ensembles must index states and probabilities alike.",
+check("C06",
+      "TLC (MC_C06 over QAlgebra) builds every type-valid time-ordered chain up to length 4 (5 thorough) over an exact catalogue of states, gates, measurement processes with 2/3/4 outcomes and POVMs with 2/3/4 outcomes (non-commuting) and checks in every state that EVERY bracketing of the chain gives the value of the sequential application (associativity of the specification's binary Compose on channel-like / state-like / POVM-like / distribution segments), that results are normalised and non-negative, that the outcome shape lists the measuring items in time order, that a measurement process on a state has the statistics of its induced POVM, and that POVM -> measurement process (three back-action modes) induces the POVM back. Binding: every chain is rebuilt from the emitted H-coordinates as real physical objects and every bracketing is evaluated through nested compose_qoperations (plus the n-ary fold and Experiment.calc_prob_dist); results must equal the specification's value in the same serial order with a compatible shape, be physical, and ensembles must index states and probabilities alike. The POVM p5 (an element I/4 with a repeated eigenvalue) is in the exact Lueders catalogue of generate_mprocess.",
       "Trusted: QObjects catalogue and QAlgebra!Compose as the reading of the property; 1-qubit catalogue + multilinearity; a result that merges adjacent outcome axes is accepted.",
       "TLA+ spec (QAlgebra over exact rationals) model-checked with TLC (all bracketings); replay of every chain x bracketing into compose_qoperations",
       "DESIGN.md §4 C06")
@@ -80,8 +80,8 @@ check("C17",
       "TLA+ spec (QCatalogue grammars and exact textbook definitions) model-checked with TLC; replay of every TLC-emitted catalogue item, action and near-miss name into the name dispatchers",
       "DESIGN.md §4 C17")
 
-check("C15 A flow configuration with data-dependent weights on data with zero counts makes the stored empirical distributions part of the compared table.",
-      "TLC (MC_C15 over QSim): the simulation flow as a transition system - seed tree (one object stream per sample, one data stream per repetition), task pools at the four nested parallel levels with joblib's backends (processes copy at dispatch, threads share, deeper nesting sequential), loss objects with identity - explored exhaustively over all 16 worker configurations: the final result table equals the schedule-free table, every estimate is computed from its own repetition's data, repetitions / samples use different streams, pool widths respected, termination. Vacuity instances (shared loss objects on threads; integer seed restarted per repetition, QSimSingle) must be refuted. MC_C15_aux: exact depolarising noise on the catalogue ((1-p) ideal + p maximally mixed, equality constraints kept) and the decision table of the built-in physicality check. Binding: TLC-simulated schedules are replayed step by step through the real flow code by a controlled executor (one thread per task released in TLC's order, pickling where the model says process; loss-minimisation tasks split before algo.optimize) and must reproduce the serial result table and pass the configured n_jobs to the right level; real loky / threading runs at every level, repeated runs, re-estimation from stored data and an independent reconstruction of the seed tree must give the same table; single-setting entry point with integer / generator / setting seeds; noise rows and physicality-check rows replayed (fabricated results on either side of the thresholds); random-Lindbladian noise physical and a function of the stream.",
+check("C15",
+      "TLC (MC_C15 over QSim): the simulation flow as a transition system - seed tree (one object stream per sample, one data stream per repetition), task pools at the four nested parallel levels with joblib's backends (processes copy at dispatch, threads share, deeper nesting sequential), loss objects with identity - explored exhaustively over all 16 worker configurations: the final result table equals the schedule-free table, every estimate is computed from its own repetition's data, repetitions / samples use different streams, pool widths respected, termination. Vacuity instances (shared loss objects on threads; integer seed restarted per repetition, QSimSingle) must be refuted. MC_C15_aux: exact depolarising noise on the catalogue ((1-p) ideal + p maximally mixed, equality constraints kept) and the decision table of the built-in physicality check. Binding: TLC-simulated schedules are replayed step by step through the real flow code by a controlled executor (one thread per task released in TLC's order, pickling where the model says process; loss-minimisation tasks split before algo.optimize) and must reproduce the serial result table and pass the configured n_jobs to the right level; real loky / threading runs at every level, repeated runs, re-estimation from stored data and an independent reconstruction of the seed tree must give the same table; single-setting entry point with integer / generator / setting seeds; noise rows and physicality-check rows replayed (fabricated results on either side of the thresholds); random-Lindbladian noise physical and a function of the stream. A flow configuration with data-dependent weights on data with zero counts makes the stored empirical distributions part of the compared table.",
       "Trusted: symbolic random values in QSim (bit-for-bit table comparison in the binding); joblib backend rule as observed with the installed joblib; OS schedules in real parallel runs are sampled, the controlled executor covers QSim's action granularity.",
       "TLA+ spec (QSim task pools / seed tree, QSimSingle, QNoise, QPhysCheck) model-checked with TLC; TLC-simulated schedules replayed through the real flow by a controlled executor; real parallel runs compared with the specification's schedule-free table",
       "DESIGN.md §4 C15")
@@ -98,20 +98,20 @@ check("C01",
       "TLA+ spec (QSpectral decimal verdicts, Loosen action property) model-checked with TLC; replay of TLC-emitted cases concretised in spectral coordinates",
       "DESIGN.md §4 C01")
 
-check("C04 Gate fragments (n = 4) are in the quick tier; measurement processes with four outcomes are also laid out as 2 x 2 grids (the outcome layout must not change the projection).",
-      "TLC (MC_C04 over QProj): spectral clipping on every grid vector is feasible, idempotent, fixes exactly the feasible points and satisfies the variational inequality <x - Px, z - Px> <= 0 against every feasible grid competitor; the equality projections of the four object types (exact rationals in H-coordinates, a deterministic family of which a third is feasible) are feasible, idempotent, fix exactly the feasible objects and leave a residual orthogonal to every direction of the constraint subspace in the stacked-parameter metric. Binding: each case is concretised (spectral vectors in seeded identity / real / complex frames on every fragment of that size; rational objects through the coordinate maps) and calc_proj_ineq_constraint, calc_proj_eq_constraint, their static *_with_var forms under both flags and the func_calc_proj_* closures must return the exact projection, object-level = variable-level, no argument modified; the variational inequality is also evaluated against seeded non-commuting feasible competitors.",
+check("C04",
+      "TLC (MC_C04 over QProj): spectral clipping on every grid vector is feasible, idempotent, fixes exactly the feasible points and satisfies the variational inequality <x - Px, z - Px> <= 0 against every feasible grid competitor; the equality projections of the four object types (exact rationals in H-coordinates, a deterministic family of which a third is feasible) are feasible, idempotent, fix exactly the feasible objects and leave a residual orthogonal to every direction of the constraint subspace in the stacked-parameter metric. Binding: each case is concretised (spectral vectors in seeded identity / real / complex frames on every fragment of that size; rational objects through the coordinate maps) and calc_proj_ineq_constraint, calc_proj_eq_constraint, their static *_with_var forms under both flags and the func_calc_proj_* closures must return the exact projection, object-level = variable-level, no argument modified; the variational inequality is also evaluated against seeded non-commuting feasible competitors. Gate fragments (n = 4) are in the quick tier; measurement processes with four outcomes are also laid out as 2 x 2 grids (the outcome layout must not change the projection).",
       "Trusted: QProj definitions; nearest-point-ness against non-commuting competitors rests on the classical theorem plus the sampled inequality; scales by homogeneity.",
       "TLA+ spec (QProj: clipping / affine projections, variational inequality) model-checked with TLC; replay of exact projections into the implementation",
       "DESIGN.md §4 C04")
 
-check("C05 A three-outcome measurement-process fragment (n = 12) exercises the implied first row of the built-in parametrisation.",
-      "TLC (MC_C05 over QProj) runs the Dykstra-type machine of calc_proj_physical in exact rational arithmetic on spectral coordinates: K sweeps from every grid point and from a list of longer vectors, both projection orders; invariants: the closed form (simplex projection) is physical and nearest (variational inequality against every physical grid point, the vertices and the centre), physical inputs are fixed, conservation x0 = x + p + q, iterates feasible for their constraint, distance to the nearest physical point never increases (action property), err = 0 only at the fixed point. Binding: every behaviour is concretised on each fragment of matching size; the recorded iteration history (x, y, p, q, error_value) must equal the exact iterates sweep by sweep, the returned object must be the closed form to the accuracy its threshold implies (three thresholds, both orders, object- and variable-level under both flags), the stopping rule and termination are checked on the history, physical inputs come back unchanged; for generic non-commuting inputs: feasibility, order independence, object/variable agreement, fixed point, conservation and error-value consistency of the history.",
+check("C05",
+      "TLC (MC_C05 over QProj) runs the Dykstra-type machine of calc_proj_physical in exact rational arithmetic on spectral coordinates: K sweeps from every grid point and from a list of longer vectors, both projection orders; invariants: the closed form (simplex projection) is physical and nearest (variational inequality against every physical grid point, the vertices and the centre), physical inputs are fixed, conservation x0 = x + p + q, iterates feasible for their constraint, distance to the nearest physical point never increases (action property), err = 0 only at the fixed point. Binding: every behaviour is concretised on each fragment of matching size; the recorded iteration history (x, y, p, q, error_value) must equal the exact iterates sweep by sweep, the returned object must be the closed form to the accuracy its threshold implies (three thresholds, both orders, object- and variable-level under both flags), the stopping rule and termination are checked on the history, physical inputs come back unchanged; for generic non-commuting inputs: feasibility, order independence, object/variable agreement, fixed point, conservation and error-value consistency of the history. A three-outcome measurement-process fragment (n = 12) exercises the implied first row of the built-in parametrisation.",
       "Trusted: the covariant-fragment reduction (twirling argument) and QProj!ProjSimplexV; no closed form for non-commuting POVMs / generic gates (no SDP oracle used); termination observed, not proved.",
       "TLA+ spec (exact Dykstra machine + simplex projection) model-checked with TLC; replay of exact iterates against the recorded iteration history of the implementation",
       "DESIGN.md §4 C05")
 
-check("C10 The projected linear estimate must not depend on the projection order; exact data of a three-outcome measurement process under the built-in parametrisation are part of the exact-data clause.",
-      "TLC (MC_C10 over QOpt/QTomo): one-qubit state tomography with the tight tester set (x, y, z), both flags; datasets are Pythagorean directions x radii (the linear estimate then has a rational Bloch length, so the nearest physical state - simplex projection of the spectrum in the estimate's own eigenframe - is exact) and every few-shot count vector; invariants: the exact linear estimate fits the data and has the radius built in, the closed form is a state, fixes physical estimates and satisfies the variational inequality against the catalogue of physical states. Binding: on every emitted dataset the projected linear estimator (both projection orders) and loss minimisation with the three projected-gradient algorithms x both loss families (constraint options on) must return estimates physical to stopping accuracy; projected linear and (tight testers) squared-error backtracking must equal the exact nearest physical state; projected linear = calc_proj_physical(linear estimate) on all data; for POVM / process / measurement-process / qutrit-state tomography exact data of physical objects are returned and few-shot / degenerate data give physical estimates.",
+check("C10",
+      "TLC (MC_C10 over QOpt/QTomo): one-qubit state tomography with the tight tester set (x, y, z), both flags; datasets are Pythagorean directions x radii (the linear estimate then has a rational Bloch length, so the nearest physical state - simplex projection of the spectrum in the estimate's own eigenframe - is exact) and every few-shot count vector; invariants: the exact linear estimate fits the data and has the radius built in, the closed form is a state, fixes physical estimates and satisfies the variational inequality against the catalogue of physical states. Binding: on every emitted dataset the projected linear estimator (both projection orders) and loss minimisation with the three projected-gradient algorithms x both loss families (constraint options on) must return estimates physical to stopping accuracy; projected linear and (tight testers) squared-error backtracking must equal the exact nearest physical state; projected linear = calc_proj_physical(linear estimate) on all data; for POVM / process / measurement-process / qutrit-state tomography exact data of physical objects are returned and few-shot / degenerate data give physical estimates. The projected linear estimate must not depend on the projection order; exact data of a three-outcome measurement process under the built-in parametrisation are part of the exact-data clause.",
       "Trusted: closed form only for one-qubit QST with tight testers and rational Bloch length; tolerances 5e-6 (projection threshold) and 2e-4 (backtracking).",
       "TLA+ spec (QOpt closed-form nearest state + QTomo exact linear estimate) model-checked with TLC; replay of TLC-emitted datasets and exact estimates into all constrained estimators",
       "DESIGN.md §4 C10")
@@ -122,8 +122,8 @@ check("C11",
       "TLA+ spec (exact backtracking machine) model-checked with TLC; replay of exact runs; TLC trace validation of recorded optimisation runs",
       "DESIGN.md §4 C11")
 
-check("C02 The quick tier adds a two-qubit instance (MC_C02_qq: row- and column-major computational forms of dense and one-hot maps; composite systems take a separate comp_basis branch); measurement processes are converted in both orderings; the sparse inverse conversions are also called on column-major copies and transposed views of their argument.",
-      "TLC (MC_C02 over QConv) takes, per system, every element of a complete basis of the input space (one-hot H-coordinate matrices / vectors; qutrit one-hots strided in the quick tier) plus dense small-integer inputs with sigma_y-type components: the Prepare step computes the row-major computational HS matrix from the action of the map on the matrix units; invariants: the algebraic Choi matrix (sum over basis pairs) equals the standard one (sum_kl G(E_kl) (x) E_kl) and the reshuffle of the HS matrix, is Hermitian for real maps, Choi -> HS inverts HS -> Choi, the column-major form is the re-indexed row-major one (spot-checked against the action), vector <-> matrix round trips, and for the exact CP catalogue sum_i K_i (x) conj K_i is the computational HS matrix. Binding: each emitted case goes through EVERY implementation the library offers for that conversion (three HS->Choi, three Choi->HS, Gate / MProcess methods, both computational orders, process matrix, convert_hs, convert_vec, convert_basis, density-matrix / POVM-matrix variants incl. the sparse ones, variable helpers under both flags) and must equal the one exact answer; exceptions are violations; linearity on dyadic combinations; Kraus conversion on the CP catalogue up to the channel generated; truncate_hs around its thresholds.",
+check("C02",
+      "TLC (MC_C02 over QConv) takes, per system, every element of a complete basis of the input space (one-hot H-coordinate matrices / vectors; qutrit one-hots strided in the quick tier) plus dense small-integer inputs with sigma_y-type components: the Prepare step computes the row-major computational HS matrix from the action of the map on the matrix units; invariants: the algebraic Choi matrix (sum over basis pairs) equals the standard one (sum_kl G(E_kl) (x) E_kl) and the reshuffle of the HS matrix, is Hermitian for real maps, Choi -> HS inverts HS -> Choi, the column-major form is the re-indexed row-major one (spot-checked against the action), vector <-> matrix round trips, and for the exact CP catalogue sum_i K_i (x) conj K_i is the computational HS matrix. Binding: each emitted case goes through EVERY implementation the library offers for that conversion (three HS->Choi, three Choi->HS, Gate / MProcess methods, both computational orders, process matrix, convert_hs, convert_vec, convert_basis, density-matrix / POVM-matrix variants incl. the sparse ones, variable helpers under both flags) and must equal the one exact answer; exceptions are violations; linearity on dyadic combinations; Kraus conversion on the CP catalogue up to the channel generated; truncate_hs around its thresholds. The quick tier adds a two-qubit instance (MC_C02_qq: row- and column-major computational forms of dense and one-hot maps; composite systems take a separate comp_basis branch); measurement processes are converted in both orderings; the sparse inverse conversions are also called on column-major copies and transposed views of their argument.",
       "Trusted: QConv definitions and the coordinate scaling; Kraus conversion (non-linear) only on the catalogue.",
       "TLA+ spec (QConv over Gaussian rationals) model-checked with TLC; replay of TLC-emitted exact representations into every conversion implementation",
       "DESIGN.md §4 C02")
